@@ -97,7 +97,7 @@ Seeds == <<1, 6, 1, 4, 2, 1, 2, 2>>
 SquarePatch ==
   LET H == Tri2(21, 0, 21)  org == <<0 - 10, 0 - 10>>
       p1 == [i \in 1..9 |-> <<org[1] + 2 + 7 * ((i - 1) % 3), org[2] + 3 + 7 * ((i - 1) \div 3)>>]
-      p2 == [i \in 1..9 |-> VAdd(p1[i], <<((7 * i) % 5) - 2, ((3 * i) % 5) - 2>>)]
+      p2 == [i \in 1..9 |-> VAdd(p1[i], <<i % 2, 2 * (i % 2)>>)]
   IN  Mk(9, 2, H, org, <<1, 1>>, <<1, 1, 1, 2, 2, 2, 1, 1, 1>>, <<p1, p2>>, 5, 4)
 TetraCluster ==
   LET H == Tri3(45, 45, 45, 0, 0, 0)  org == <<0, 0, 0>>  o == <<20, 20, 20>>
